@@ -279,6 +279,11 @@ def signal_scenario(ctx, seed):
         st = St("s%d" % i, ["o/x%d.o" % i], ins=["c%d.c" % i], deps=deps, depfile="o/x%d.o.d" % i if deps != "none" else "")
         st["early"] = rng.random() < 0.6
         st["vtool_args"] = ["--sleep-after", str(rng.choice((150, 300, 600))), "--announce", "run%d.flag" % i]
+        if st["early"] and rng.random() < 0.35:
+            # a tool that gives its outputs the time of what it read (cp -p, install -p, touch -r): what it has written is older
+            # than the moment it was started - "modified" cannot be told by comparing with the start time
+            st["vtool_args"] += ["--keep-times"]
+            st["keep_times"] = True
         if rng.random() < 0.5:
             # the work is done by a child of the shell ninja spawned (a wrapper script, a compiler driver), not by a process
             # the shell exec()ed in its own place: stopping the command means stopping its whole process group
@@ -306,6 +311,8 @@ def signal_scenario(ctx, seed):
         cons.pop("stubborn", None)
         cons["vtool_args"] = ["--sleep-after", "1500", "--announce", "run%s.flag" % cons["id"][1:]]
     t = e2e.Tree(sc)
+    if any("--keep-times" in s_.get("vtool_args", []) for s_ in sc["stmts"]):
+        ctx.count("signal_runs_with_time_preserving_tools")
     rep = {"seed": seed, "signal": int(sig), "manifest": open(t.path("build.ninja")).read()}
     what = "signal scenario %d (%s)" % (seed, sig.name)
     try:
